@@ -37,7 +37,7 @@ ASSUMPTIONS = [
 
 READS = ["area", "centroid", "vertices", "edges", "faces", "facets", "dual", "components", "is_degenerate", "basis_matrix", "base_point", "direction", "general_point",
          "normalized_array", "isinf", "isreal", "T", "length", "midpoint", "angles", "volume", "circumcenter", "center", "radius", "foci", "size", "covariant_tensor",
-         "contravariant_tensor", "lie_coordinates", "tensor_shape", "free_indices"]
+         "contravariant_tensor", "lie_coordinates", "tensor_shape", "free_indices", "dtype", "shape", "rank", "dim"]
 CALLS = ["inverse", "copy", "__repr__", "__iter__", "__len__", "__neg__", "is_zero", "transpose"]
 
 
@@ -411,7 +411,7 @@ FIXED_V = [[1, 6, 3, 0, 2, -6, -3, 5, -1, 1, -5, 4, 3, 4, 5, -3, -2, -1, 4, 2, -
 
 def qdq_cases(tier, seed):
     for d in (2, 3):
-        for vi in range(len(FIXED_V) if tier == "thorough" else 1):
+        for vi in (range(len(FIXED_V)) if tier == "thorough" else [d - 2]):  # quick: float pool in 2D, integer-typed pool in 3D
             try:
                 pool = extend_pool(d, O.pool_for(d, FIXED_V[vi]))
             except Skip:
